@@ -304,7 +304,7 @@ class SymItems:
 def typed_empty_local(P, st, v, fr):
     """`x: T = {}` / `= set()` in the target: contract option local_types = {'x': 'dict[Key[K], ...]'}
     (else the annotation itself) makes the fresh empty literal an empty symbolic container"""
-    if not (isinstance(v, (dict, set)) and not v and isinstance(st.target, ast.Name)):
+    if not (isinstance(v, (dict, set, list)) and not v and isinstance(st.target, ast.Name)):
         return v
     c = P.ex.current
     info = fr.fn
@@ -318,6 +318,9 @@ def typed_empty_local(P, st, v, fr):
         m = empty_map(typ)
         containers._register_fresh(P, m)
         return m
+    if typ[0] == 'set' and isinstance(v, list):   # zipseqs: append-only list abstracted by its element set
+        from . import zipseqs
+        return zipseqs.empty_bag(P, typ)
     if typ[0] == 'set' and isinstance(v, set):
         s = containers.empty_set(typ[1])
         containers._register_fresh(P, s)
